@@ -49,10 +49,16 @@ func makeDeadline(d time.Duration) fasttime {
 	// passed clockEnd, so a clockEnd that still covers 'end' below was written
 	// for a running updater, and the current read after it is not stale.
 	clockEnd := fast.clockEnd.read()
+	if verifOn {
+		verifClockPoint(1)
+	}
 
 	// Increase the deadline since the clock we are reading may be
 	// just about to tick forwards.
 	end := fast.current.read() + deadlineTicks(d)
+	if verifOn {
+		verifClockPoint(2)
+	}
 
 	// Start or extend clock if necessary.
 	if end > clockEnd {
@@ -68,6 +74,9 @@ func makeDeadline(d time.Duration) fasttime {
 		// even if another goroutine has restarted the clock since
 		end = fast.current.read() + deadlineTicks(d)
 		fast.mu.Unlock()
+		if verifOn {
+			verifClockPoint(3)
+		}
 		extendClock(end)
 	}
 
